@@ -164,7 +164,7 @@ let main_exec () =
   let ir0 : node option ref = ref None and ir1 : node option ref = ref None in
   let multiline = ref false and gnames : n list list ref = ref [] in
   let stage_checks = ref 0 in
-  let ir_evals = ref 0 and ir_inconclusive = ref 0 in
+  let ir_evals = ref 0 and ir_inconclusive = ref 0 and bt_covered = ref 0 in
   (* the shape the compile-correctness theorems assume of every IR: Cat [...; Goal] at the top and
      Loop1CharBody only around a node that emits one single-character instruction (IRSem.ir_wf) *)
   let check_ir_shape tag n =
@@ -327,10 +327,25 @@ let main_exec () =
       | "N0" :: rest -> let n = fst (parse_node rest) in ir0 := Some n; check_ir_shape "ir0" n
       | "N1" :: rest -> let n = fst (parse_node rest) in ir1 := Some n; check_ir_shape "ir1" n
       | "NM" :: ml :: _ :: rest -> multiline := bos ml; gnames := List.map parse_hex rest
-      | "G" :: nl :: ng :: uni :: sp -> hdr := Some (ios nl, ios ng, bos uni, parse_sp sp)
+      | "G" :: nl :: ng :: uni :: sp ->
+        hdr := Some (ios nl, ios ng, bos uni, parse_sp sp);
+        (* lookaround capture ranges (IRShape.look_wf): what the backtracker theorem assumes of every IR *)
+        List.iter (fun (tag, ir) -> match ir with
+          | None -> ()
+          | Some n ->
+            incr stage_checks;
+            if not (look_wf (nat_of_int (ios ng)) (ir_top n)) then begin
+              incr mism;
+              Printf.printf "MISMATCH stage=IRshape-%s case=%s pat=%s flags=%s detail=look_wf:false\n" tag !cur_id !cur_pat !cur_flags
+            end;
+            if bt_wf (nat_of_int (ios ng)) (ir_top n) then incr bt_covered) [("ir0", !ir0); ("ir1", !ir1)]
       | "I" :: rest -> insns := parse_insn rest :: !insns
       | "B" :: inv :: rest -> brs := { br_invert = bos inv; br_ivs = pairs rest } :: !brs
-      | "H" :: hx :: s :: _ -> flush_group (); hay := parse_hex hx; hayhex := hx; start := ios s
+      | "H" :: hx :: s :: _ ->
+        flush_group (); hay := parse_hex hx; hayhex := hx; start := ios s;
+        (* the haystack hypothesis of the UTF-8 theorems: stepping right never overshoots the end *)
+        if not (walk_ok ix_utf8 !hay (nat_of_int (List.length !hay + 2)) (nat_of_int !start)) then begin
+          incr mism; Printf.printf "MISMATCH stage=haystack case=%s hay=%s start=%d detail=walk_ok:false\n" !cur_id hx !start end
       | "X" :: what :: _ ->
         incr mism;
         Printf.printf "MISMATCH case=%s pat=%s flags=%s kind=%s\n" !cur_id !cur_pat !cur_flags what
@@ -385,7 +400,7 @@ let main_exec () =
       | _ -> failwith ("bad line: " ^ line)
     done
   with End_of_file -> ());
-  Printf.printf "SUMMARY cases=%d runs=%d mismatches=%d nontrivial=%d model_steps=%d propviol=%d inconclusive=%d stage_checks=%d ir_evals=%d ir_inconclusive=%d\n" !cases !runs !mism !nontrivial !total_steps !pviol !inconclusive !stage_checks !ir_evals !ir_inconclusive
+  Printf.printf "SUMMARY cases=%d runs=%d mismatches=%d nontrivial=%d model_steps=%d propviol=%d inconclusive=%d stage_checks=%d ir_evals=%d ir_inconclusive=%d bt_theorem_irs=%d\n" !cases !runs !mism !nontrivial !total_steps !pviol !inconclusive !stage_checks !ir_evals !ir_inconclusive !bt_covered
 
 let () =
   match Array.to_list Sys.argv with
